@@ -158,8 +158,28 @@ def build(plan):
     if app is None:
         app = CALLER_APP
         if not ref.get("app_arg"):
-            msg.header.application_id = app        # documented usage of RFC 6733 RAA / ASA
+            # RFC 6733 RAA / ASA belong to whatever application the session belongs to: the constructor takes no
+            # application argument and the caller assigns header.application_id (the suite does the same). The
+            # message as built is a built message all the same: it must serialise to what its Message Length says
+            # and decode again (the Application-ID / P clauses are judged once the application is assigned).
+            msg._verif_asbuilt = asbuilt_roundtrip(msg)
+            msg.header.application_id = app
     return msg, expected, (ref["code"], app, ref["request"])
+
+
+def asbuilt_roundtrip(msg):
+    """None when the message as built serialises consistently and decodes again, else a description."""
+    try:
+        dump = msg.dump()
+        if msg.header.get_length() != len(dump) or len(dump) % 4:
+            return f"Message Length {msg.header.get_length()} but {len(dump)} bytes serialised (header {dump[:20].hex()})"
+        from bromelia.base import DiameterMessage
+        back = DiameterMessage.load(dump)
+        if len(back) != 1 or len(back[0].avps) != len(msg.avps):
+            return "DiameterMessage.load(dump()) does not return the one message with its AVPs"
+    except BaseException as e:  # noqa
+        return f"{type(e).__name__}: {e}"
+    return None
 
 
 def judge(rep, plan):
@@ -228,6 +248,8 @@ def judge(rep, plan):
         cnt = sum(1 for o in avps if o.get_code() == e["code"] and o.get_vendor_id() == e["vendor"])
         if cnt != 1:
             errs.append((f"mandatory-count:{mname}", f"mandatory {mcls.__name__} occurs {cnt} times"))
+    if getattr(msg, "_verif_asbuilt", None):
+        errs.append(("as-built-roundtrip", f"before the caller assigns the Application-ID: {msg._verif_asbuilt}"))
     # serialisation, length, round trip
     try:
         dump = msg.dump()
